@@ -89,3 +89,24 @@ func zzH_C16_connections() {
 		}
 	}
 }
+
+// C16/connections-lookup: one live connection with a symbolic local port and a symbolic
+// first octet of the remote address; a message for (another) symbolic address pair finds it
+// exactly when both addresses are equal - however the two pairs are formatted.
+func zzH_C16_lookup() {
+	lp1, lp2 := zzU16(), zzU16()
+	o1, o2 := zzU8(), zzU8()
+	la1 := &net.TCPAddr{IP: net.IPv4(10, 0, 0, 5), Port: int(lp1)}
+	ra1 := &net.TCPAddr{IP: net.IPv4(o1, 2, 3, 4), Port: 51000}
+	la2 := &net.TCPAddr{IP: net.IPv4(10, 0, 0, 5), Port: int(lp2)}
+	ra2 := &net.TCPAddr{IP: net.IPv4(o2, 2, 3, 4), Port: 51000}
+	var conns Connections
+	ac := &agentConnection{Laddr: la1, Raddr: ra1, in: make(chan []byte), out: make(chan interface{}, 4)}
+	conns.Add(ac)
+	same := zzAnd(lp1 == lp2, o1 == o2)
+	if conns.Get(la2, ra2) == ac {
+		zzAssert(same, "a message is delivered to a connection only when both of its addresses are that connection's addresses")
+	} else {
+		zzAssert(!same, "a message for a live connection's addresses finds that connection")
+	}
+}
